@@ -56,45 +56,56 @@ func ItemsEqual(it, with Item) bool {
 			return nil
 		})
 	} else if IsObject(it) {
-		_ = OnObject(it, func(i *Object) error {
-			result = i.Equals(with)
-			return nil
-		})
+		// NOTE(marius): the comparison of the object properties is part of each of the more specific ones.
+		// Running it here as well, only to overwrite its result, doubled the work at every level of nesting.
+		specific := false
 		if ActivityTypes.Contains(with.GetType()) {
 			_ = OnActivity(it, func(i *Activity) error {
+				specific = true
 				result = i.Equals(with)
 				return nil
 			})
 		} else if ActorTypes.Contains(with.GetType()) {
 			_ = OnActor(it, func(i *Actor) error {
+				specific = true
 				result = i.Equals(with)
 				return nil
 			})
 		} else if it.IsCollection() {
 			if it.GetType() == CollectionType {
 				_ = OnCollection(it, func(c *Collection) error {
+					specific = true
 					result = c.Equals(with)
 					return nil
 				})
 			}
 			if it.GetType() == OrderedCollectionType {
 				_ = OnOrderedCollection(it, func(c *OrderedCollection) error {
+					specific = true
 					result = c.Equals(with)
 					return nil
 				})
 			}
 			if it.GetType() == CollectionPageType {
 				_ = OnCollectionPage(it, func(c *CollectionPage) error {
+					specific = true
 					result = c.Equals(with)
 					return nil
 				})
 			}
 			if it.GetType() == OrderedCollectionPageType {
 				_ = OnOrderedCollectionPage(it, func(c *OrderedCollectionPage) error {
+					specific = true
 					result = c.Equals(with)
 					return nil
 				})
 			}
+		}
+		if !specific {
+			_ = OnObject(it, func(i *Object) error {
+				result = i.Equals(with)
+				return nil
+			})
 		}
 	} else if IsLink(it) {
 		_ = OnLink(it, func(l *Link) error {
